@@ -17,7 +17,7 @@
 (***************************************************************************)
 EXTENDS Integers, Sequences, FiniteSets, TLC
 
-SRTNew == [st |-> <<>>, refs |-> <<>>, wait |-> <<>>, tocol |-> <<>>, rcb |-> <<>>, rid |-> <<>>]
+SRTNew == [st |-> <<>>, refs |-> <<>>, wait |-> <<>>, tocol |-> <<>>, rcb |-> <<>>, rid |-> <<>>, wasUnsent |-> {}, early |-> {}]
 
 SRTGet(f, k, d) == IF k \in DOMAIN f THEN f[k] ELSE d
 SRTPut(f, k, v) == [x \in DOMAIN f \cup {k} |-> IF x = k THEN v ELSE f[x]]
@@ -61,13 +61,18 @@ SRTStep(x0, r) ==
       [] r.kind = "subUnref" -> SRTRes([x EXCEPT !.refs = SRTPut(@, r.sp, SRTRefs(x, r.sp) \ {r.csp})], {})
       [] r.kind = "subRefsClear" -> SRTRes([x EXCEPT !.refs = SRTPut(@, r.sp, {})], {})
       [] r.kind = "subLoaded" ->
-            SRTRes([x EXCEPT !.st = SRTPut(@, r.sp, "loaded"), !.tocol = SRTPut(@, r.sp, SRTWait(x, r.sp)), !.wait = SRTPut(@, r.sp, <<>>)],
-                   IF SRTSt(x, r.sp) # "loading" THEN {SRTErr("C07", "Loaded ran on a subscription that is " \o SRTSt(x, r.sp))} ELSE {})
+            \* (a subscription marked sent while loading - reported then - is loaded after all)
+            SRTRes([x EXCEPT !.st = SRTPut(@, r.sp, "loaded"), !.tocol = SRTPut(@, r.sp, SRTWait(x, r.sp)), !.wait = SRTPut(@, r.sp, <<>>), !.early = @ \ {r.sp}],
+                   IF SRTSt(x, r.sp) # "loading" /\ r.sp \notin x.early THEN {SRTErr("C07", "Loaded ran on a subscription that is " \o SRTSt(x, r.sp))} ELSE {})
       [] r.kind = "subSent" ->
-            SRTRes([x EXCEPT !.st = SRTPut(@, r.sp, "sent")],
-                   IF SRTSt(x, r.sp) = "loading" THEN {SRTErr("C02", "marked sent while it is still loading")} ELSE {})
+            \* finding KF-U, further consequence: a subscription that was marked unsent keeps processing events; when it is
+            \* sent again, the still loading reference such an event brought is marked sent with it
+            LET viaUnsent == \E p \in x.wasUnsent : r.sp \in SRTRefs(x, p)
+                loading == SRTSt(x, r.sp) = "loading"
+            IN SRTRes([x EXCEPT !.st = SRTPut(@, r.sp, "sent"), !.early = IF loading THEN @ \cup {r.sp} ELSE @],
+                      IF loading THEN {[p |-> "C02", m |-> "marked sent while it is still loading", kf |-> IF viaUnsent THEN "KF-U" ELSE ""]} ELSE {})
       [] r.kind = "subDeleted" -> SRTRes([x EXCEPT !.st = SRTPut(@, r.sp, "deleted")], {})
-      [] r.kind = "unsend" /\ "sp" \in DOMAIN r -> SRTRes([x EXCEPT !.st = SRTPut(@, r.sp, "ready")], {})
+      [] r.kind = "unsend" /\ "sp" \in DOMAIN r -> SRTRes([x EXCEPT !.st = SRTPut(@, r.sp, "ready"), !.wasUnsent = @ \cup {r.sp}], {})
       [] r.kind = "rdyNow" ->
             SRTRes(x, IF SRTReady(x, r.sp) THEN {} ELSE {SRTErr("C02", "OnReady fires at once on a subscription that is " \o SRTSt(x, r.sp))})
       [] r.kind = "rdyOn" /\ (r.first \/ r.rcb \in DOMAIN x.rcb) ->
@@ -108,7 +113,7 @@ SRTStep(x0, r) ==
       [] r.kind = "dispose" ->
             LET ws == SRTWait(x, r.sp) \o SRTTocol(x, r.sp)
             IN SRTRes([x EXCEPT !.st = SRTPut(@, r.sp, "disposed"), !.wait = SRTPut(@, r.sp, <<>>), !.tocol = SRTPut(@, r.sp, <<>>),
-                                !.refs = SRTPut(@, r.sp, {}), !.rcb = SRTDropAll(@, ws)],
+                                !.refs = SRTPut(@, r.sp, {}), !.rcb = SRTDropAll(@, ws), !.wasUnsent = @ \ {r.sp}, !.early = @ \ {r.sp}],
                       IF "ready" \in DOMAIN r /\ r.ready # Len(SRTWait(x, r.sp)) THEN {SRTErr("C07", "disposed with " \o ToString(r.ready) \o " parked ready callbacks, SubReadyOps says " \o ToString(Len(SRTWait(x, r.sp))))} ELSE {})
       [] OTHER -> SRTRes(x, {})
 
